@@ -19,9 +19,10 @@ pub fn literal_for(int_kind: IntKind, val: i64) -> Lit {
 }
 pub enum CChar { Char(char), Raw(u64) }
 /// `Var::parse`, EvalResult::Char arm
-pub fn char_value(c: CChar) -> u8 {
+#[derive(Debug, PartialEq)] pub enum ParseError { Recurse, Continue }
+pub fn char_value(c: CChar) -> Result<u8, ParseError> {
     /*CHAR_STMT*/
-    c
+    Ok(c)
 }
 /// `Enum::codegen`: repr translation
 pub fn translate(signed: bool, size: usize) -> IntKind {
@@ -47,6 +48,31 @@ pub mod clang_eval {
     }
 }
 
+
+// ---- where the value of a const integer variable comes from: the `let mut val = ..` statement of Var::parse (VarDecl branch) and the real
+// ---- get_integer_literal_from_cursor. Environment contract: clang's evaluation of the initializer (cursor.evaluate()) IS the C value when
+// ---- available; the value read from the initializer's TOKENS (cexpr: untyped wrapping i64) is some i64 with no such guarantee. ---------------
+pub mod var_value {
+    #![allow(non_upper_case_globals)]
+    use super::clang_eval::{EvalResult, Handle};
+    pub mod clang_sys { pub const CXCursor_IntegerLiteral: u32 = 106; pub const CXCursor_UnaryOperator: u32 = 112; pub const CXCursor_UnexposedExpr: u32 = 100; pub const CXChildVisit_Break: u32 = 0; pub const CXChildVisit_Continue: u32 = 1; }
+    /// an expression node with at most one child (initializer, then what an implicit cast wraps)
+    #[derive(Clone, Copy)] pub struct Node { pub kind: u32, pub tok: Option<i64> }
+    #[derive(Clone, Copy)] pub struct Cursor { pub nodes: [Node; 2], pub n: usize, pub level: usize, pub eval: Option<Handle> }
+    pub mod clang { pub use super::Cursor; }
+    impl Cursor {
+        pub fn kind(&self) -> u32 { self.nodes[self.level - 1].kind }
+        pub fn visit<F: FnMut(Cursor) -> u32>(&self, mut f: F) { if self.level < self.n { let _ = f(Cursor { level: self.level + 1, ..*self }); } }
+        pub fn evaluate(&self) -> Option<EvalResult> { self.eval.map(|x| EvalResult { x }) }
+    }
+    fn parse_int_literal_tokens(c: &Cursor) -> Option<i64> { c.nodes[c.level - 1].tok }
+/*GET_LITERAL_FN*/
+    /// the `let mut val = ..` statement (up to `val.map(..)`) of the integer arm of Var::parse
+    pub fn const_int_value(cursor: Cursor) -> Option<i64> {
+/*VALUE_STMT*/
+        val
+    }
+}
 #[cfg(kani)]
 mod proofs {
     #[kani::proof]
@@ -56,6 +82,20 @@ mod proofs {
         let r = EvalResult { x: h }.as_int();
         if h.kind != CXEval_Int { assert!(r.is_none()); }
         else { assert!(r == Some(h.bits as i64), "64-bit constant from libclang truncated or altered"); }
+    }
+    #[kani::proof] #[kani::unwind(4)]
+    fn const_variable_takes_the_value_clang_computed() {
+        use clang_eval::*; use var_value::*;
+        let node = |_: u8| Node { kind: kani::any(), tok: if kani::any() { Some(kani::any()) } else { None } };
+        let n: usize = kani::any(); kani::assume(n <= 2);
+        let eval = if kani::any() { Some(Handle { bits: kani::any(), unsigned: kani::any(), kind: kani::any() }) } else { None };
+        let cursor = Cursor { nodes: [node(0), node(1)], n, level: 0, eval };
+        let got = const_int_value(cursor);
+        // what the C compiler computed for the initializer, when libclang can evaluate it
+        let c_value = match eval { Some(h) if h.kind == CXEval_Int => Some(h.bits as i64), _ => None };
+        if let Some(v) = c_value { assert!(got == Some(v), "a const variable whose initializer clang evaluated is given another value (read from the tokens)"); }
+        kani::cover!(c_value.is_none() && got.is_some(), "value taken from the tokens when clang cannot evaluate");
+        kani::cover!(c_value.is_some() && n == 2 && cursor.nodes[0].tok.is_some(), "clang value and a token value both available");
     }
     use super::*;
     fn bits(k: IntKind) -> u32 { (k.known_size().unwrap() * 8) as u32 }
@@ -115,10 +155,13 @@ mod proofs {
     }
     #[kani::proof]
     fn char_macro_value_preserved() {
-        let raw: u64 = kani::any(); kani::assume(raw <= 255);      // cexpr yields Raw only for one byte
-        assert!(char_value(CChar::Raw(raw)) as u64 == raw, "byte value of a character-literal macro altered");
-        let a: u8 = kani::any(); kani::assume(a < 128);
-        assert!(char_value(CChar::Char(a as char)) == a, "ASCII character-literal macro altered");
+        // cexpr hands back ANY character constant: wide, UTF-16/32 and multi-character ones included (L'\x1234' is Raw(0x1234), U'\U0001F600' a 4-byte char)
+        let (r, value) = if kani::any() { let raw: u64 = kani::any(); (char_value(CChar::Raw(raw)), raw) } else { let c: char = kani::any(); (char_value(CChar::Char(c)), c as u64) };
+        match r {
+            Ok(v) => assert!(v as u64 == value, "value of a character-literal macro altered"),
+            Err(_) => assert!(value > 127, "a character-literal macro that fits the emitted u8 is withheld"),   // omitted rather than emitted with a different value
+        }
+        kani::cover!(r.is_err(), "character constant that does not fit is skipped");
     }
     #[kani::proof]
     fn enum_repr_translation_keeps_width_and_sign() {
